@@ -11,7 +11,7 @@
    parse_duration; the correspondence run (checks/c20.py) is what ties the interpreter to the libraries by running
    the real ReadConfig / NewDriver on every generated document. *)
 From Coq Require Import String List NArith ZArith Bool.
-From GoUpf Require Import ConfigGen ConstsGen Config ConfigProofs.
+From GoUpf Require Import ConfigGen ConstsGen ConfigSpec Config ConfigProofs.
 Import ListNotations.
 Local Open Scope string_scope.
 
@@ -35,6 +35,15 @@ Theorem C20_accept_sound :
   /\ (exists g i r, c_gtpu c = Some g /\ g_iflist g = i :: r /\ a = i_addr i ++ ":2152" /\ m = i_mtu i).
 Proof. exact accept_sound. Qed.
 Print Assumptions C20_accept_sound.
+
+(* The property's condition list as the boolean monitor of monitor/ConfigSpec.v (written from the property text,
+   independent of the tag table) accepts every configuration the model starts with. *)
+Theorem C20_monitor_accepts_model :
+  forall (is_host is_cidr resolvable : string -> bool) (parse_duration : string -> option Z) doc c a m,
+  startup is_host is_cidr resolvable parse_duration config_tags doc = Started c a m ->
+  cond_okb is_host is_cidr resolvable c = true.
+Proof. exact started_cond_okb. Qed.
+Print Assumptions C20_monitor_accepts_model.
 
 (* Everything else is an error: the outcome is either a rejection (which carries no configuration at all) or the
    start with the configuration that satisfies C20_accept_sound. *)
